@@ -782,7 +782,14 @@ loop:
 	exp, opt := w.pending, w.pendOpt
 	w.pending, w.pendOpt = nil, nil
 	w.M.Suppressed = nil
-	exp, got = dropOptional(exp, opt, got)
+	if aligned, ok := alignOptional(exp, opt, got, w.segBurst); ok {
+		// delivered == expected with some optional events left out: compare the
+		// aligned sequences exactly (old names included)
+		exp = aligned
+		w.segBurst = false
+	} else {
+		exp, got = dropOptional(exp, opt, got)
+	}
 	seg := Segment{Burst: w.segBurst, Ops: w.opsInSeg, Expected: exp, Delivered: got}
 	w.Segments = append(w.Segments, seg)
 	if len(w.Segments) > 64 {
@@ -877,6 +884,58 @@ func (w *World) wedge(what string) int {
 		}
 	}
 	return wedgeRetry
+}
+
+// alignOptional decides whether the delivered sequence equals the expected one
+// with some *optional* expected events left out, and returns the expected
+// events that were matched. Optional are: events whose watch the user removed
+// or re-pointed while they were pending (opt), and, in burst segments, every
+// event after the first of a run of events equal in (Op, Name) - the kernel may
+// have merged them in the Watcher's queue (its merge test ignores the cookie).
+func alignOptional(exp []Ev, opt []bool, got []Ev, burst bool) ([]Ev, bool) {
+	n, m := len(exp), len(got)
+	if m > n {
+		return nil, false
+	}
+	o := make([]bool, n)
+	for i := range exp {
+		if i < len(opt) && opt[i] {
+			o[i] = true
+		}
+		if burst && i > 0 && exp[i].same(exp[i-1]) {
+			o[i] = true
+		}
+	}
+	// can[i][j]: exp[i:] can produce got[j:]
+	can := make([][]bool, n+1)
+	for i := range can {
+		can[i] = make([]bool, m+1)
+	}
+	can[n][m] = true
+	for i := n - 1; i >= 0; i-- {
+		for j := m; j >= 0; j-- {
+			if j < m && exp[i].same(got[j]) && can[i+1][j+1] {
+				can[i][j] = true
+			} else if o[i] && can[i+1][j] {
+				can[i][j] = true
+			}
+		}
+	}
+	if !can[0][0] {
+		return nil, false
+	}
+	var out []Ev
+	i, j := 0, 0
+	for i < n {
+		if j < m && exp[i].same(got[j]) && can[i+1][j+1] {
+			out = append(out, exp[i])
+			i++
+			j++
+		} else {
+			i++
+		}
+	}
+	return out, true
 }
 
 // dropOptional removes expected events marked optional (their watch was
@@ -1247,9 +1306,11 @@ func (w *World) RRemove(root string) {
 // reported.
 func (w *World) RemoveNow(p string) {
 	c := filepath.Clean(p)
-	for i, e := range w.pending {
-		if e.Name == c || strings.HasPrefix(e.Name, c+"/") {
-			w.pendOpt[i] = true
+	if w.M.ByPath(c) != nil { // only a Remove that really ends a watch can discard what is pending for it
+		for i, e := range w.pending {
+			if e.Name == c || strings.HasPrefix(e.Name, c+"/") {
+				w.pendOpt[i] = true
+			}
 		}
 	}
 	// a Remove of a watched entry that the model left out because this
